@@ -97,6 +97,26 @@ Lemma counter_reset_harmless_run :
   cttl (fst s) = false /\ next (fst s) = 2.
 Proof. vm_compute. repeat split; reflexivity. Qed.
 
+(* ---- the expiry cleanup in a history: client 1's mapping is expired (by its own update), client 2's is not; the cleanup
+   (any caller) removes exactly the expired one on behalf of client 1, and a caller with client id 0 / -1 trying to
+   delete client 2's mapping is refused ------------------------------------------------------------------------- *)
+Definition cleanup_threads : list thr :=
+  [ init_thr 1 [OCreate nm_a nm_base 11; OUpdate 0 StActive 3 12] [];
+    init_thr 2 [OCreate nm_b nm_base 22] [];
+    init_thr 0 [ODelete (Abs 2); OCleanup 5; OCreate nm_a nm_base 66] [];
+    init_thr (-1) [ODelete (Abs 2); ODelete (Abs 1)] [];
+    init_thr 9 [OLookup host_a 5; OLookup (full_domain nm_b nm_base) 5] [] ].
+Definition cleanup_sched : list nat :=
+  (repeat 0 7 ++ repeat 1 5 ++ [2; 3] ++ repeat 2 12 ++ repeat 3 1 ++ repeat 2 2 ++ repeat 4 4)%nat.
+
+Lemma cleanup_run :
+  let s := drun true true true none_legacy none_legacy empty_store cleanup_threads cleanup_sched in
+  map out (snd s) = [[RUpdated; RCreated 1]; [RCreated 2]; [RErr EValidation; RCleaned 1; RErr EForbidden];
+                     [RDeleted; RErr EForbidden]; [RRouted 1 (full_domain nm_b nm_base) 2 2 22; RErr ENotFound]] /\
+  idx (fst s) host_a = None /\ idx (fst s) (full_domain nm_b nm_base) = Some 2 /\ recs (fst s) 1 = None /\
+  glist (fst s) = [2] /\ stale_release (log (fst s)) = false.
+Proof. vm_compute. repeat split; reflexivity. Qed.
+
 (* ---- an owner's delete, run to completion without interference and without storage failures ------------------ *)
 Section Solo.
   Variables reg cloud : name -> option pmap.
@@ -119,7 +139,7 @@ Section Solo.
     intros Hr Hc Hi Hg. cbn zeta.
     unfold solo, dstep.
     unfold decide; cbn.
-    repeat (progress (rewrite ?Hr, ?Hc, ?Hg, ?Hi, ?N.eqb_refl; cbn)).
+    repeat (progress (rewrite ?Hr, ?Hc, ?Hg, ?Hi, ?N.eqb_refl, ?Z.eqb_refl; cbn)).
     split; [reflexivity|]. split; [apply upd_name_same|]. split; [apply upd_n_same|]. split; [apply upd_n_same|].
     split; [reflexivity|]. split; [intros n Hn; now apply upd_name_other|intros j Hj; now apply upd_n_other].
   Qed.
